@@ -1,5 +1,766 @@
 /- helper lemmas for C09 (apply part) -/
 import MelModel.ApplyTx
 import MelModel.Lemmas.Batch
+import MelModel.Props.C20
 namespace Mel
+open Mel.Gen
+
+/-! ### "does not crash" -/
+
+/-- the outcome is a value or a rejection -/
+def NoCrash {α} (x : Outcome α) : Prop := ∀ c, x ≠ .crash c
+
+theorem Outcome.ok_bind_c09 {α β} (a : α) (f : α → Outcome β) : (Outcome.ok a).bind f = f a := rfl
+
+namespace NoCrash
+
+theorem ok {α} (a : α) : NoCrash (Outcome.ok a) := fun _ h => by cases h
+
+theorem reject {α} (e : StateError) : NoCrash (Outcome.reject e : Outcome α) := fun _ h => by cases h
+
+theorem bind {α β} {x : Outcome α} {f : α → Outcome β} (hx : NoCrash x)
+    (hf : ∀ a, x = .ok a → NoCrash (f a)) : NoCrash (x.bind f) := by
+  cases x with
+  | ok a => exact hf a rfl
+  | reject e => exact reject e
+  | crash c => exact absurd rfl (hx c)
+
+/-- a fold does not crash when an invariant keeps every step from crashing -/
+theorem foldlM' {α β} (f : β → α → Outcome β) (P : β → Prop) (l : List α)
+    (h : ∀ b, P b → ∀ a ∈ l, NoCrash (f b a) ∧ ∀ b', f b a = .ok b' → P b') :
+    ∀ b, P b → NoCrash (Outcome.foldlM' f b l) := by
+  induction l with
+  | nil => intro b _; exact ok b
+  | cons a rest ih =>
+    intro b hb
+    obtain ⟨h1, h2⟩ := h b hb a List.mem_cons_self
+    simp only [Outcome.foldlM']
+    cases hfa : f b a with
+    | ok b' =>
+      exact ih (fun b0 hb0 a0 ha0 => h b0 hb0 a0 (List.mem_cons_of_mem _ ha0)) b' (h2 b' hfa)
+    | reject e => exact reject e
+    | crash c => exact absurd hfa (h1 c)
+
+theorem ite {α} {c : Prop} [Decidable c] {x y : Outcome α} (hx : NoCrash x) (hy : NoCrash y) :
+    NoCrash (if c then x else y) := by
+  split <;> assumption
+
+theorem forM' {α} (f : α → Outcome Unit) (l : List α) (h : ∀ a ∈ l, NoCrash (f a)) :
+    NoCrash (Outcome.forM' f l) := by
+  induction l with
+  | nil => exact ok ()
+  | cons a rest ih =>
+    simp only [Outcome.forM']
+    cases hfa : f a with
+    | ok u => cases u; exact ih (fun a0 ha0 => h a0 (List.mem_cons_of_mem _ ha0))
+    | reject e => exact reject e
+    | crash c => exact absurd hfa (h a List.mem_cons_self c)
+
+end NoCrash
+
+/-! ### the phases that never crash at all -/
+
+theorem loadRelevantCoins_noCrash (s : State) (txs : List Tx) : NoCrash (loadRelevantCoins s txs) := by
+  rw [loadRelevantCoins_eq]
+  split
+  · exact NoCrash.reject _
+  · refine NoCrash.bind ?_ ?_
+    · refine NoCrash.foldlM' _ (fun _ => True) _ ?_ _ trivial
+      intro b _ a _
+      refine ⟨?_, fun _ _ => trivial⟩
+      rcases diskStep_cases (createdOf s.height txs) s.coins b a with ⟨acc', h⟩ | h
+      · rw [h]; exact NoCrash.ok _
+      · rw [h]; exact NoCrash.reject _
+    · intro disk _
+      split
+      · exact NoCrash.ok _
+      · exact NoCrash.reject _
+
+theorem loadStakeInfo_noCrash (s : State) (txs : List Tx) : NoCrash (loadStakeInfo s txs) := by
+  unfold loadStakeInfo
+  refine NoCrash.foldlM' _ (fun _ => True) _ ?_ _ trivial
+  intro b _ tx _
+  refine ⟨?_, fun _ _ => trivial⟩
+  intro c
+  split
+  · simp
+  · split
+    · simp
+    · split
+      · simp
+      · split
+        · simp
+        · split
+          · simp
+          · split <;> simp
+
+theorem validateTxScripts_noCrash (env : Env) (i : Nat) (id : CoinID) (tx : Tx) (coin : CoinDataHeight)
+    (lh : Header) : NoCrash (validateTxScripts env i id tx coin lh) := by
+  intro c
+  unfold validateTxScripts
+  split
+  · simp
+  · split
+    · simp
+    · dsimp only
+      split
+      · split <;> simp
+      · simp
+
+theorem loadRelevantCoins_malformed (s : State) (txs : List Tx) (tx : Tx) (htx : tx ∈ txs)
+    (hbad : (tx.isWellFormed && tx.melTotalFits) = false) :
+    loadRelevantCoins s txs = .reject .malformedTx := by
+  rw [loadRelevantCoins_eq]
+  have : (txs.all fun tx => tx.isWellFormed && tx.melTotalFits) = false := by
+    rw [List.all_eq_false]
+    exact ⟨tx, htx, by simp [hbad]⟩
+  simp [this]
+
+/-! ### sums of values over distinct keys -/
+namespace AList
+variable {κ ν : Type} [DecidableEq κ]
+
+/-- the weight of the entry at a key (0 when absent) -/
+def valAt (f : ν → Nat) (m : AList κ ν) (k : κ) : Nat :=
+  match get m k with
+  | some v => f v
+  | none => 0
+
+theorem valAt_add_sum_del_le (f : ν → Nat) (m : AList κ ν) (a : κ) :
+    valAt f m a + ((del m a).map fun e => f e.2).sum ≤ (m.map fun e => f e.2).sum := by
+  induction m with
+  | nil => simp [valAt, get, del]
+  | cons e rest ih =>
+    obtain ⟨k, v⟩ := e
+    rw [del_cons]
+    by_cases hk : k = a
+    · subst hk
+      have h1 : valAt f rest k + ((del rest k).map fun e => f e.2).sum ≤ (rest.map fun e => f e.2).sum := ih
+      simp only [valAt, get_cons, if_true, List.map_cons, List.sum_cons]
+      omega
+    · have h0 : valAt f ((k, v) :: rest) a = valAt f rest a := by simp [valAt, get_cons, hk]
+      rw [h0]
+      simp only [hk, if_false, List.map_cons, List.sum_cons]
+      omega
+
+theorem sum_del_le (f : ν → Nat) (m : AList κ ν) (a : κ) :
+    ((del m a).map fun e => f e.2).sum ≤ (m.map fun e => f e.2).sum :=
+  Nat.le_trans (Nat.le_add_left _ _) (valAt_add_sum_del_le f m a)
+
+/-- distinct keys select distinct entries: their weights add up to at most the total weight -/
+theorem sum_valAt_le (f : ν → Nat) (ids : List κ) :
+    ∀ m : AList κ ν, ids.Nodup → (ids.map (valAt f m)).sum ≤ (m.map fun e => f e.2).sum := by
+  induction ids with
+  | nil => intro m _; simp
+  | cons a rest ih =>
+    intro m hn
+    rw [List.nodup_cons] at hn
+    have hc : rest.map (valAt f m) = rest.map (valAt f (del m a)) := by
+      apply List.map_congr_left
+      intro x hx
+      have hne : x ≠ a := fun h => hn.1 (h ▸ hx)
+      simp only [valAt, get_del_ne m hne]
+    have h1 := ih (del m a) hn.2
+    have h2 := valAt_add_sum_del_le f m a
+    simp only [List.map_cons, List.sum_cons, hc]
+    omega
+
+theorem sum_set_le (f : ν → Nat) (m : AList κ ν) (k : κ) (v : ν) :
+    ((set m k v).map fun e => f e.2).sum ≤ (m.map fun e => f e.2).sum + f v := by
+  have := sum_del_le f m k
+  simp only [set, List.map_cons, List.sum_cons]
+  omega
+
+theorem sum_extend_le (f : ν → Nat) (es : List (κ × ν)) :
+    ∀ m : AList κ ν, ((extend m es).map fun e => f e.2).sum ≤
+      (m.map fun e => f e.2).sum + (es.map fun e => f e.2).sum := by
+  induction es with
+  | nil => intro m; simp [extend]
+  | cons e rest ih =>
+    intro m
+    have h1 : extend m (e :: rest) = extend (set m e.1 e.2) rest := rfl
+    have h2 := ih (set m e.1 e.2)
+    have h3 := sum_set_le f m e.1 e.2
+    rw [h1]
+    simp only [List.map_cons, List.sum_cons]
+    omega
+
+end AList
+
+theorem sum_filterMap_le {α β : Type} (g : α → Option β) (f : β → Nat) (f' : α → Nat)
+    (h : ∀ x y, g x = some y → f y ≤ f' x) (l : List α) :
+    ((l.filterMap g).map f).sum ≤ (l.map f').sum := by
+  induction l with
+  | nil => simp
+  | cons a rest ih =>
+    rw [List.filterMap_cons]
+    cases hg : g a with
+    | none => simp only [List.map_cons, List.sum_cons]; omega
+    | some b =>
+      have := h a b hg
+      simp only [List.map_cons, List.sum_cons]; omega
+
+theorem outputCoins_sum_le (tx : Tx) (height : Nat) :
+    ((outputCoinsFromTx tx height).map fun e => e.2.coinData.value).sum ≤ (tx.outputs.map (·.value)).sum := by
+  have h2 : (tx.outputs.zipIdx.map fun p => p.1.value) = tx.outputs.map (·.value) := by
+    have : (tx.outputs.zipIdx.map fun p => p.1.value) = (tx.outputs.zipIdx.map Prod.fst).map (·.value) := by
+      rw [List.map_map]; rfl
+    rw [this, List.zipIdx_map_fst]
+  rw [← h2]
+  unfold outputCoinsFromTx
+  refine sum_filterMap_le _ (fun (e : CoinID × CoinDataHeight) => e.2.coinData.value)
+    (fun (p : CoinData × Nat) => p.1.value) ?_ _
+  rintro ⟨o, i⟩ y hy
+  simp only at hy
+  by_cases hne : (if o.denom = .newCustom then ({ o with denom := .custom tx.hash } : CoinData) else o).covhash
+      ≠ coinDestroy
+  · rw [if_pos hne] at hy
+    simp only [Option.some.injEq] at hy
+    subst hy
+    simp only
+    split <;> simp
+  · rw [if_neg hne] at hy
+    cases hy
+
+theorem createdOf_sum_le (height : Nat) (txs : List Tx) :
+    ((createdOf height txs).map fun e => e.2.coinData.value).sum ≤
+      ((txs.flatMap (·.outputs)).map (·.value)).sum := by
+  have key : ∀ (l : List Tx) (acc : Relevant),
+      ((l.foldl (fun acc tx => acc.extend (outputCoinsFromTx tx height)) acc).map
+        fun e => e.2.coinData.value).sum ≤
+      (acc.map fun e => e.2.coinData.value).sum + ((l.flatMap (·.outputs)).map (·.value)).sum := by
+    intro l
+    induction l with
+    | nil => intro acc; simp
+    | cons tx rest ih =>
+      intro acc
+      have h1 := ih (acc.extend (outputCoinsFromTx tx height))
+      have h2 : ((acc.extend (outputCoinsFromTx tx height)).map fun e => e.2.coinData.value).sum ≤
+          (acc.map fun e => e.2.coinData.value).sum +
+            ((outputCoinsFromTx tx height).map fun e => e.2.coinData.value).sum :=
+        AList.sum_extend_le (fun c : CoinDataHeight => c.coinData.value) (outputCoinsFromTx tx height) acc
+      have h3 := outputCoins_sum_le tx height
+      simp only [List.foldl_cons, List.flatMap_cons, List.map_append, List.sum_append]
+      refine Nat.le_trans h1 (Nat.le_trans (Nat.add_le_add_right h2 _) ?_)
+      rw [Nat.add_assoc]
+      exact Nat.add_le_add_left (Nat.add_le_add_right h3 _) _
+  have := key txs []
+  simpa [createdOf] using this
+
+/-! ### the spent coins of one transaction are worth at most the whole supply -/
+
+/-- value of the coin an input resolves to -/
+def relVal (rel : Relevant) (id : CoinID) : Nat := AList.valAt (fun c : CoinDataHeight => c.coinData.value) rel id
+
+theorem relVal_of_get {rel : Relevant} {id : CoinID} {c : CoinDataHeight} (h : rel.get id = some c) :
+    relVal rel id = c.coinData.value := by
+  simp [relVal, AList.valAt, h]
+
+theorem sum_map_le_add {α : Type} (f g h : α → Nat) (l : List α) (hp : ∀ x ∈ l, f x ≤ g x + h x) :
+    (l.map f).sum ≤ (l.map g).sum + (l.map h).sum := by
+  induction l with
+  | nil => simp
+  | cons a rest ih =>
+    have h1 := hp a List.mem_cons_self
+    have h2 := ih (fun x hx => hp x (List.mem_cons_of_mem _ hx))
+    simp only [List.map_cons, List.sum_cons]
+    omega
+
+theorem inputs_value_bound {s : State} {txs : List Tx} {rel : Relevant}
+    (hload : loadRelevantCoins s txs = .ok rel)
+    (hb : (s.coins.coins.map (·.2.coinData.value)).sum + ((txs.flatMap (·.outputs)).map (·.value)).sum ≤ U128_MAX)
+    {tx : Tx} (htx : tx ∈ txs) : (tx.inputs.map (relVal rel)).sum ≤ U128_MAX := by
+  obtain ⟨-, hnd, -, r1, r2⟩ := loadRelevantCoins_ok hload
+  have hnd' : tx.inputs.Nodup := (List.pairwise_flatMap.mp hnd).1 tx htx
+  let fv := fun c : CoinDataHeight => c.coinData.value
+  have hpt : ∀ id ∈ tx.inputs, relVal rel id ≤
+      AList.valAt fv (createdOf s.height txs) id + AList.valAt fv s.coins.coins id := by
+    intro id _
+    cases hc : (createdOf s.height txs).get id with
+    | some c =>
+      rw [relVal_of_get (r1 id c hc)]
+      simp [AList.valAt, hc, fv]
+    | none =>
+      cases hr : rel.get id with
+      | none => simp [relVal, AList.valAt, hr]
+      | some c =>
+        have h2 : s.coins.coins.get id = some c := r2 id c hc hr
+        rw [relVal_of_get hr]
+        simp [AList.valAt, h2, fv]
+  have h1 := sum_map_le_add _ _ _ tx.inputs hpt
+  have h2 := AList.sum_valAt_le fv tx.inputs (createdOf s.height txs) hnd'
+  have h3 := AList.sum_valAt_le fv tx.inputs s.coins.coins hnd'
+  have h4 := createdOf_sum_le s.height txs
+  refine Nat.le_trans h1 (Nat.le_trans ?_ hb)
+  rw [Nat.add_comm]
+  exact Nat.add_le_add h3 (Nat.le_trans h2 h4)
+
+/-! ### `checkTxValidity` -/
+
+/-- one step of the input fold of `checkTxValidity` -/
+def inStep (env : Env) (s : State) (lastHeader : Header) (tx : Tx) (rel : Relevant)
+    (newStakes : AList Hash StakeDoc) (acc : AList Denom Nat) (e : CoinID × Nat) : Outcome (AList Denom Nat) :=
+  let coinId := e.1
+  if (newStakes.contains coinId.txhash || (s.stakes.getStake coinId.txhash).isSome) && !legacyStakeLock s
+  then .reject .coinLocked
+  else match rel.get coinId with
+    | none => .reject .nonexistentCoin
+    | some coin =>
+      (validateTxScripts env e.2 coinId tx coin lastHeader).bind fun _ =>
+        let total := (acc.get coin.coinData.denom).getD 0 + coin.coinData.value
+        if total > U128_MAX then .crash "applytx.rs: in_coins sum overflow"
+        else .ok (acc.set coin.coinData.denom total)
+
+theorem checkTxValidity_eq (env : Env) (s : State) (lh : Header) (tx : Tx) (rel : Relevant)
+    (ns : AList Hash StakeDoc) :
+    checkTxValidity env s lh tx rel ns =
+      (Outcome.foldlM' (inStep env s lh tx rel ns) [] tx.inputs.zipIdx).bind fun inCoins =>
+        checkBalanced tx.kind inCoins tx.totalOutputs := rfl
+
+theorem inFold_noCrash (env : Env) (s : State) (lh : Header) (tx : Tx) (rel : Relevant)
+    (ns : AList Hash StakeDoc) (l : List (CoinID × Nat)) :
+    ∀ (acc : AList Denom Nat) (B : Nat), (∀ d, (acc.get d).getD 0 ≤ B) →
+      B + (l.map fun e => relVal rel e.1).sum ≤ U128_MAX →
+      NoCrash (Outcome.foldlM' (inStep env s lh tx rel ns) acc l) := by
+  induction l with
+  | nil => intro acc B _ _; exact NoCrash.ok _
+  | cons e rest ih =>
+    intro acc B hacc hB
+    simp only [List.map_cons, List.sum_cons] at hB
+    simp only [Outcome.foldlM']
+    cases hstep : inStep env s lh tx rel ns acc e with
+    | reject r => exact NoCrash.reject _
+    | crash c =>
+      exfalso
+      simp only [inStep] at hstep
+      split at hstep
+      · cases hstep
+      · split at hstep
+        · cases hstep
+        · rename_i coin hcoin
+          have hv := relVal_of_get hcoin
+          cases hval : validateTxScripts env e.2 e.1 tx coin lh with
+          | ok u =>
+            rw [hval] at hstep
+            simp only [Outcome.bind] at hstep
+            split at hstep
+            · rename_i hgt
+              have := hacc coin.coinData.denom
+              omega
+            · cases hstep
+          | reject r => rw [hval] at hstep; cases hstep
+          | crash c' => exact validateTxScripts_noCrash env e.2 e.1 tx coin lh c' hval
+    | ok acc' =>
+      simp only [inStep] at hstep
+      split at hstep
+      · cases hstep
+      · split at hstep
+        · cases hstep
+        · rename_i coin hcoin
+          have hv := relVal_of_get hcoin
+          cases hval : validateTxScripts env e.2 e.1 tx coin lh with
+          | ok u =>
+            rw [hval] at hstep
+            simp only [Outcome.bind] at hstep
+            split at hstep
+            · cases hstep
+            · simp only [Outcome.ok.injEq] at hstep
+              subst hstep
+              refine ih _ (B + relVal rel e.1) ?_ (by omega)
+              intro d
+              by_cases hd : d = coin.coinData.denom
+              · subst hd
+                rw [AList.get_set_self]
+                have := hacc coin.coinData.denom
+                simp only [Option.getD_some]
+                omega
+              · rw [AList.get_set_ne _ _ hd]
+                have := hacc d
+                omega
+          | reject r => rw [hval] at hstep; cases hstep
+          | crash c' => rw [hval] at hstep; cases hstep
+
+theorem checkBalanced_noCrash (kind : TxKind) (inC outC : AList Denom Nat) :
+    NoCrash (checkBalanced kind inC outC) := by
+  unfold checkBalanced
+  split
+  · exact NoCrash.ok _
+  · apply NoCrash.forM'
+    intro e _ c
+    split
+    · simp
+    · split
+      · simp
+      · split <;> simp
+
+theorem checkTxValidity_noCrash (env : Env) (s : State) (lh : Header) (tx : Tx) (rel : Relevant)
+    (ns : AList Hash StakeDoc) (hsum : (tx.inputs.map (relVal rel)).sum ≤ U128_MAX) :
+    NoCrash (checkTxValidity env s lh tx rel ns) := by
+  rw [checkTxValidity_eq]
+  refine NoCrash.bind ?_ (fun _ _ => checkBalanced_noCrash _ _ _)
+  refine inFold_noCrash env s lh tx rel ns _ [] 0 (by intro d; simp [AList.get]) ?_
+  have : (tx.inputs.zipIdx.map fun e => relVal rel e.1) = tx.inputs.map (relVal rel) := by
+    have h : (tx.inputs.zipIdx.map fun e => relVal rel e.1) = (tx.inputs.zipIdx.map Prod.fst).map (relVal rel) := by
+      rw [List.map_map]; rfl
+    rw [h, List.zipIdx_map_fst]
+  rw [this]; omega
+
+/-- `Tx.totalOutputs` always starts with a MEL entry -/
+theorem totalOutputs_head (tx : Tx) : ∃ v rest, tx.totalOutputs = (Denom.mel, v) :: rest := by
+  simp only [Tx.totalOutputs, addDenom, AList.set]
+  exact ⟨_, _, rfl⟩
+
+/-- a transaction without inputs that is not a faucet is unbalanced (its MEL total has no counterpart) -/
+theorem checkTxValidity_ok_inputs {env : Env} {s : State} {lh : Header} {tx : Tx} {rel : Relevant}
+    {ns : AList Hash StakeDoc} (hk : tx.kind ≠ .faucet) (h : checkTxValidity env s lh tx rel ns = .ok ()) :
+    tx.inputs ≠ [] := by
+  intro hnil
+  rw [checkTxValidity_eq, hnil] at h
+  obtain ⟨v, rest, hto⟩ := totalOutputs_head tx
+  simp only [List.zipIdx_nil, Outcome.foldlM', Outcome.bind, checkBalanced, hk, if_false, hto,
+    Outcome.forM'] at h
+  simp [AList.get] at h
+
+/-! ### `validateDoscmint` -/
+
+theorem pow2_le_of_le_100 {d : Nat} (hd : d ≤ 100) : 2 ^ d ≤ 2 ^ 100 :=
+  Nat.pow_le_pow_right (by decide) hd
+
+theorem computeDoscmintSpeed_eq_of_le {b : Bool} {d sh ch : Nat} (hd : d ≤ 100) (hlt : ch < sh) :
+    computeDoscmintSpeed b d sh ch = .ok ((if b then TIP910_SPEED_FACTOR else 1) * 2 ^ d / (sh - ch)) := by
+  have h1 : ¬ d ≥ 128 := by omega
+  have h2 : ¬ ch > sh := by omega
+  have h3 : ¬ sh = ch := by omega
+  have h4 : ¬ (if b then TIP910_SPEED_FACTOR else 1) * 2 ^ d > U128_MAX := by
+    have hp := pow2_le_of_le_100 hd
+    have hf : (if b then TIP910_SPEED_FACTOR else 1) ≤ 100 := by cases b <;> simp [TIP910_SPEED_FACTOR]
+    have : (if b then TIP910_SPEED_FACTOR else 1) * 2 ^ d ≤ 100 * 2 ^ 100 := Nat.mul_le_mul hf hp
+    have h100 : 100 * 2 ^ 100 ≤ U128_MAX := by decide
+    omega
+  simp only [computeDoscmintSpeed, h1, h2, h3, h4, if_false]
+
+theorem calculateReward_eq_of_le {sp ds d : Nat} {b : Bool} (hd : d ≤ 100) (hds : ds ≠ 0) :
+    calculateReward sp ds d b = .ok (satU128 ((if b then satMul128 (2 ^ d) TIP910_WORK_FACTOR else 2 ^ d) * sp *
+      MICRO_CONVERTER / (ds ^ 2 * REWARD_DIVISOR))) := by
+  have h1 : ¬ d ≥ 128 := by omega
+  simp only [calculateReward, h1, hds, if_false]
+
+theorem satU128_le (n : Nat) : satU128 n ≤ n := Nat.min_le_left _ _
+
+theorem satMul128_le (a b : Nat) : satMul128 a b ≤ a * b := Nat.min_le_left _ _
+
+/-- everything `validateDoscmint` needs in order not to crash -/
+theorem validateDoscmint_noCrash {env : Env} {s : State} {rel : Relevant} {tx : Tx}
+    (hin : tx.inputs ≠ [])
+    (hh : ∀ id c, rel.get id = some c → c.height ≤ s.height)
+    (hpow : ∀ a b c d, env.powOk a b c d ≠ .panics)
+    (hdiff : ∀ a b c d, env.powOk a b c d ≠ .invalid → c ≤ 100)
+    (hbelow : ∀ h hdr, s.history.get h = some hdr → h < s.height)
+    (hspeeds : ∀ h hdr, s.history.get h = some hdr → 0 < hdr.doscSpeed)
+    (hfits : ∀ hdr, s.history.get (s.height - 1) = some hdr → ∀ a b d t, env.powOk a b d t ≠ .invalid →
+      microergsIter s.height * ((TIP910_WORK_FACTOR * 2 ^ d) * (TIP910_SPEED_FACTOR * 2 ^ d) * MICRO_CONVERTER /
+        (hdr.doscSpeed ^ 2 * REWARD_DIVISOR)) / MICRO_CONVERTER ≤ U128_MAX) :
+    NoCrash (validateDoscmint env s rel tx) := by
+  unfold validateDoscmint
+  cases hinp : tx.inputs with
+  | nil => exact absurd hinp hin
+  | cons coinId restInputs =>
+    simp only
+    cases hcoin : rel.get coinId with
+    | none => exact NoCrash.reject _
+    | some coin =>
+      simp only
+      have hle : coin.height ≤ s.height := hh coinId coin hcoin
+      rw [if_neg (Nat.not_lt.mpr hle)]
+      split
+      · exact NoCrash.reject _
+      · cases hseed : s.history.get coin.height with
+        | none => exact NoCrash.reject _
+        | some seedHdr =>
+          simp only
+          have hlt : coin.height < s.height := hbelow _ _ hseed
+          cases hdf : tx.powDifficulty with
+          | none => exact NoCrash.reject _
+          | some difficulty =>
+            simp only
+            split
+            · exact NoCrash.reject _
+            · have hnp := hpow (env.hdrHash seedHdr) coinId difficulty tx.hash
+              have key : ∀ v : PowVerdict, env.powOk (env.hdrHash seedHdr) coinId difficulty tx.hash = v →
+                  v ≠ .invalid → NoCrash
+                    ((computeDoscmintSpeed (decide (v = .tip910)) difficulty s.height coin.height).bind fun mySpeed =>
+                      if s.height = 0 then .crash "applytx.rs: height - 1 underflow" else
+                      match s.history.get (s.height - 1) with
+                      | none => .reject .invalidMelPoW
+                      | some prev =>
+                        (calculateReward mySpeed prev.doscSpeed difficulty (decide (v = .tip910))).bind fun rewardReal =>
+                        (doscToErg s.height rewardReal).bind fun rewardNom =>
+                          let totalErg := (tx.totalOutputs.get .erg).getD 0
+                          if totalErg > rewardNom then .reject .invalidMelPoW else .ok mySpeed) := by
+                intro v hv hvi
+                have hd100 : difficulty ≤ 100 := hdiff _ _ _ _ (by rw [hv]; exact hvi)
+                rw [computeDoscmintSpeed_eq_of_le hd100 hlt, Outcome.ok_bind_c09]
+                rw [if_neg (Nat.ne_of_gt (Nat.lt_of_le_of_lt (Nat.zero_le _) hlt))]
+                cases hprev : s.history.get (s.height - 1) with
+                | none => exact NoCrash.reject _
+                | some prev =>
+                  simp only
+                  have hds : prev.doscSpeed ≠ 0 := by
+                    have := hspeeds _ _ hprev; omega
+                  rw [calculateReward_eq_of_le hd100 hds, Outcome.ok_bind_c09]
+                  have hfit := hfits prev hprev (env.hdrHash seedHdr) coinId difficulty tx.hash (by rw [hv]; exact hvi)
+                  -- the reward is at most the maximal one
+                  have hw : (if decide (v = .tip910) = true then satMul128 (2 ^ difficulty) TIP910_WORK_FACTOR
+                      else 2 ^ difficulty) ≤ TIP910_WORK_FACTOR * 2 ^ difficulty := by
+                    split
+                    · rw [Nat.mul_comm]; exact satMul128_le _ _
+                    · exact Nat.le_mul_of_pos_left _ (by decide)
+                  have hsp : (if decide (v = .tip910) = true then TIP910_SPEED_FACTOR else 1) * 2 ^ difficulty /
+                      (s.height - coin.height) ≤ TIP910_SPEED_FACTOR * 2 ^ difficulty := by
+                    refine Nat.le_trans (Nat.div_le_self _ _) (Nat.mul_le_mul_right _ ?_)
+                    split <;> simp [TIP910_SPEED_FACTOR]
+                  have hr := Nat.le_trans (satU128_le _)
+                    (Nat.div_le_div_right (c := prev.doscSpeed ^ 2 * REWARD_DIVISOR)
+                      (Nat.mul_le_mul_right MICRO_CONVERTER (Nat.mul_le_mul hw hsp)))
+                  have hv2 : microergsIter s.height * satU128 ((if decide (v = .tip910) = true then
+                        satMul128 (2 ^ difficulty) TIP910_WORK_FACTOR else 2 ^ difficulty) *
+                      ((if decide (v = .tip910) = true then TIP910_SPEED_FACTOR else 1) * 2 ^ difficulty /
+                        (s.height - coin.height)) * MICRO_CONVERTER / (prev.doscSpeed ^ 2 * REWARD_DIVISOR)) /
+                      MICRO_CONVERTER ≤ U128_MAX :=
+                    Nat.le_trans (Nat.div_le_div_right (Nat.mul_le_mul_left _ hr)) hfit
+                  simp only [doscToErg]
+                  rw [if_neg (Nat.not_lt.mpr hv2), Outcome.ok_bind_c09]
+                  exact NoCrash.ite (NoCrash.reject _) (NoCrash.ok _)
+              cases hv : env.powOk (env.hdrHash seedHdr) coinId difficulty tx.hash with
+              | panics => exact absurd hv hnp
+              | invalid => exact NoCrash.reject _
+              | legacy => exact key .legacy hv (by decide)
+              | tip910 => exact key .tip910 hv (by decide)
+
+/-! ### `createNextState` -/
+
+/-- the count invariant, as far as it matters: before TIP-906 the counts are not maintained at all -/
+def CInv (t : Bool) (m : CoinMap) : Prop := t = true → CountsOk m
+
+theorem CInv.insert_fresh {t : Bool} {m : CoinMap} {id : CoinID} {d : CoinDataHeight} (h : CInv t m)
+    (hf : m.getCoin id = none) : CInv t (m.insertCoin id d t) := by
+  intro ht; subst ht; exact C20_insert_fresh m id d (h rfl) hf
+
+theorem CInv.insert_same {t : Bool} {m : CoinMap} {id : CoinID} {d : CoinDataHeight} (h : CInv t m)
+    (hf : m.getCoin id = some d) : CInv t (m.insertCoin id d t) := by
+  intro ht; subst ht; exact C20_insert_overwrite m id d d (h rfl) hf rfl
+
+theorem CInv.remove {t : Bool} {m : CoinMap} (h : CInv t m) (id : CoinID) :
+    ∃ m', m.removeCoin id t = .ok m' ∧ CInv t m' := by
+  cases t with
+  | false => exact ⟨{ m with coins := m.coins.del id }, by simp [CoinMap.removeCoin], fun h => by cases h⟩
+  | true =>
+    obtain ⟨m', h1, h2⟩ := C20_remove m id (h rfl)
+    exact ⟨m', h1, fun _ => h2⟩
+
+theorem CInv.removeFold {t : Bool} (ids : List CoinID) :
+    ∀ m : CoinMap, CInv t m →
+      ∃ m', Outcome.foldlM' (fun (c : CoinMap) id => c.removeCoin id t) m ids = .ok m' ∧ CInv t m' := by
+  induction ids with
+  | nil => intro m h; exact ⟨m, rfl, h⟩
+  | cons id rest ih =>
+    intro m h
+    obtain ⟨m1, h1, h2⟩ := h.remove id
+    obtain ⟨m2, h3, h4⟩ := ih m1 h2
+    refine ⟨m2, ?_, h4⟩
+    simp only [Outcome.foldlM', h1]
+    exact h3
+
+/-- the insertion pass keeps the count invariant: every inserted id is either new or re-inserted
+    with the very same coin -/
+theorem insFold_inv (rel : Relevant) (t : Bool) (base : CoinMap) (L : List CoinID)
+    (hfresh : ∀ id ∈ L, base.getCoin id = none) :
+    ∀ coins : CoinMap, CInv t coins →
+      (∀ k c, coins.getCoin k = some c → base.getCoin k = some c ∨ rel.get k = some c) →
+      CInv t (L.foldl (insStep rel t) coins) := by
+  induction L with
+  | nil => intro coins h _; exact h
+  | cons id rest ih =>
+    intro coins h hsrc
+    have hf := hfresh id List.mem_cons_self
+    rw [List.foldl_cons]
+    apply ih (fun x hx => hfresh x (List.mem_cons_of_mem _ hx))
+    · simp only [insStep]
+      cases hr : rel.get id with
+      | none => exact h
+      | some cd =>
+        simp only
+        cases hg : coins.getCoin id with
+        | none => exact h.insert_fresh hg
+        | some old =>
+          rcases hsrc id old hg with h1 | h1
+          · rw [hf] at h1; cases h1
+          · rw [hr] at h1
+            simp only [Option.some.injEq] at h1
+            subst h1
+            exact h.insert_same hg
+    · intro k c hk
+      rw [getCoin_insStep] at hk
+      by_cases hki : k = id
+      · rw [if_pos hki] at hk
+        cases hr : rel.get k with
+        | none =>
+          rw [hr] at hk
+          have := hsrc k c hk
+          rw [hr] at this
+          exact this
+        | some cd => rw [hr] at hk; exact Or.inr hk
+      · rw [if_neg hki] at hk
+        exact hsrc k c hk
+
+theorem mem_outputIds {txs : List Tx} {id : CoinID} (h : id ∈ outputIds txs) :
+    ∃ tx ∈ txs, ∃ i, id = ⟨tx.hash, i⟩ := by
+  simp only [outputIds, List.mem_flatMap, List.mem_map] at h
+  obtain ⟨tx, htx, i, -, rfl⟩ := h
+  exact ⟨tx, htx, _, rfl⟩
+
+theorem faucetStep_inv {env : Env} {t : Bool} {st : State} {tx : Tx} (ht : st.tip906 = t)
+    (hinv : CInv t st.coins) :
+    NoCrash (if tx.kind = .faucet then handleFaucetTx env st tx else .ok st) ∧
+    ∀ st1, (if tx.kind = .faucet then handleFaucetTx env st tx else .ok st) = .ok st1 →
+      st1.tip906 = t ∧ st1.feeMultiplier = st.feeMultiplier ∧ CInv t st1.coins := by
+  by_cases hk : tx.kind = .faucet
+  · rw [if_pos hk]
+    simp only [handleFaucetTx]
+    split
+    · exact ⟨NoCrash.reject _, fun _ h => by cases h⟩
+    · split
+      · exact ⟨NoCrash.reject _, fun _ h => by cases h⟩
+      · rename_i hnone
+        split
+        · refine ⟨NoCrash.ok _, ?_⟩
+          intro st1 h
+          cases h
+          refine ⟨ht, rfl, ?_⟩
+          have hnone' : st.coins.getCoin ⟨env.fdp tx.hash, 0⟩ = none := by
+            cases hg : st.coins.getCoin ⟨env.fdp tx.hash, 0⟩ with
+            | none => rfl
+            | some v => rw [hg] at hnone; simp at hnone
+          simp only
+          rw [ht]
+          exact hinv.insert_fresh hnone'
+        · refine ⟨NoCrash.ok _, ?_⟩
+          intro st1 h
+          cases h
+          exact ⟨ht, rfl, hinv⟩
+  · rw [if_neg hk]
+    refine ⟨NoCrash.ok _, ?_⟩
+    intro st1 h
+    cases h
+    exact ⟨ht, rfl, hinv⟩
+
+theorem baseFee_noCrash (tx : Tx) (m : Nat) (hw : (tx.covenants.map covenantWeightFromBytes).sum ≤ U128_MAX) :
+    NoCrash (tx.baseFee m) := by
+  simp only [Tx.baseFee, Tx.weight]
+  rw [if_neg (Nat.not_lt.mpr hw), Outcome.ok_bind_c09]
+  exact NoCrash.ok _
+
+theorem nextStep_inv {env : Env} {t : Bool} {st : State} {tx : Tx} (ht : st.tip906 = t)
+    (hinv : CInv t st.coins) (hw : (tx.covenants.map covenantWeightFromBytes).sum ≤ U128_MAX) :
+    NoCrash (nextStep env t st tx) ∧
+    ∀ st', nextStep env t st tx = .ok st' → st'.tip906 = t ∧ CInv t st'.coins := by
+  obtain ⟨f1, f2⟩ := faucetStep_inv (env := env) (tx := tx) ht hinv
+  constructor
+  · unfold nextStep
+    refine NoCrash.bind f1 ?_
+    intro st1 h1
+    obtain ⟨-, -, hi1⟩ := f2 st1 h1
+    obtain ⟨m', hm, -⟩ := CInv.removeFold tx.inputs st1.coins hi1
+    rw [hm, Outcome.ok_bind_c09]
+    refine NoCrash.bind (baseFee_noCrash tx _ hw) ?_
+    intro minFee _
+    exact NoCrash.ite (NoCrash.reject _) (NoCrash.ok _)
+  · intro st' h
+    simp only [nextStep, Outcome.bind_eq_ok] at h
+    obtain ⟨st1, h1, coins2, h2, minFee, -, h4⟩ := h
+    obtain ⟨ht1, -, hi1⟩ := f2 st1 h1
+    obtain ⟨m', hm, hi2⟩ := CInv.removeFold tx.inputs st1.coins hi1
+    rw [hm] at h2
+    cases h2
+    split at h4
+    · cases h4
+    · cases h4
+      exact ⟨ht1, hi2⟩
+
+theorem createNextState_noCrash (env : Env) (s : State) (txs : List Tx) (rel : Relevant)
+    (hc : CountsOk s.coins)
+    (hfresh : ∀ t ∈ txs, ∀ i, s.coins.getCoin ⟨t.hash, i⟩ = none)
+    (hw : ∀ t ∈ txs, (t.covenants.map covenantWeightFromBytes).sum ≤ U128_MAX) :
+    NoCrash (createNextState env s txs rel s.tip906) := by
+  rw [createNextState_eq]
+  refine NoCrash.foldlM' _ (fun st => st.tip906 = s.tip906 ∧ CInv s.tip906 st.coins) txs ?_ _ ⟨rfl, ?_⟩
+  · intro st ⟨ht, hinv⟩ tx htx
+    obtain ⟨n1, n2⟩ := nextStep_inv (env := env) ht hinv (hw tx htx)
+    exact ⟨n1, n2⟩
+  · refine insFold_inv rel s.tip906 s.coins (outputIds txs) ?_ s.coins (fun _ => hc) (fun k c h => Or.inl h)
+    intro id hid
+    obtain ⟨tx, htx, i, rfl⟩ := mem_outputIds hid
+    exact hfresh tx htx i
+
+/-! ### `applyBatch` -/
+
+/-- no relevant coin is from the future: created coins carry the current height -/
+theorem rel_heights {s : State} {txs : List Tx} {rel : Relevant} (hload : loadRelevantCoins s txs = .ok rel)
+    (hh : ∀ id c, s.coins.getCoin id = some c → c.height ≤ s.height) :
+    ∀ id c, rel.get id = some c → c.height ≤ s.height := by
+  obtain ⟨-, -, -, r1, r2⟩ := loadRelevantCoins_ok hload
+  intro id c hc
+  cases hcr : (createdOf s.height txs).get id with
+  | none => exact hh id c (r2 id c hcr hc)
+  | some c' =>
+    have := r1 id c' hcr
+    rw [hc] at this
+    simp only [Option.some.injEq] at this
+    subst this
+    obtain ⟨tx, -, hm⟩ := createdOf_get_some hcr
+    obtain ⟨_, _, -, -, hht, -⟩ := mem_outputCoinsFromTx hm
+    exact Nat.le_of_eq hht
+
+theorem applyBatch_noCrash (env : Env) (s : State) (txs : List Tx) (fb : Header)
+    (hc : CountsOk s.coins)
+    (hfresh : ∀ t ∈ txs, ∀ i, s.coins.getCoin ⟨t.hash, i⟩ = none)
+    (hheights : ∀ id c, s.coins.getCoin id = some c → c.height ≤ s.height)
+    (hbounded : (s.coins.coins.map (·.2.coinData.value)).sum + ((txs.flatMap (·.outputs)).map (·.value)).sum
+      ≤ U128_MAX)
+    (hspeeds : ∀ h hdr, s.history.get h = some hdr → 0 < hdr.doscSpeed)
+    (hbelow : ∀ h hdr, s.history.get h = some hdr → h < s.height)
+    (hpow : ∀ a b c d, env.powOk a b c d ≠ .panics)
+    (hdiff : ∀ a b c d, env.powOk a b c d ≠ .invalid → c ≤ 100)
+    (hw : ∀ t ∈ txs, (t.covenants.map covenantWeightFromBytes).sum ≤ U128_MAX)
+    (hfits : ∀ hdr, s.history.get (s.height - 1) = some hdr → ∀ a b d t, env.powOk a b d t ≠ .invalid →
+      microergsIter s.height * ((TIP910_WORK_FACTOR * 2 ^ d) * (TIP910_SPEED_FACTOR * 2 ^ d) * MICRO_CONVERTER /
+        (hdr.doscSpeed ^ 2 * REWARD_DIVISOR)) / MICRO_CONVERTER ≤ U128_MAX) :
+    NoCrash (applyBatch env s txs fb) := by
+  unfold applyBatch
+  refine NoCrash.bind (loadRelevantCoins_noCrash s txs) ?_
+  intro rel hrel
+  refine NoCrash.bind (loadStakeInfo_noCrash s txs) ?_
+  intro ns _
+  dsimp only
+  refine NoCrash.bind (NoCrash.forM' _ _ ?_) ?_
+  · intro tx htx
+    exact checkTxValidity_noCrash _ _ _ _ _ _ (inputs_value_bound hrel hbounded htx)
+  · intro u hu
+    have hall : ∀ tx ∈ txs, checkTxValidity env s (lastHeaderOf s fb) tx rel ns = .ok () :=
+      (Outcome.forM'_eq_ok _ _).mp hu
+    refine NoCrash.bind ?_ ?_
+    · refine NoCrash.foldlM' _ (fun _ => True) txs ?_ _ trivial
+      intro sp _ tx htx
+      refine ⟨?_, fun _ _ => trivial⟩
+      split
+      · rename_i hk
+        have hkf : tx.kind ≠ .faucet := by rw [hk]; decide
+        exact NoCrash.bind
+          (validateDoscmint_noCrash (checkTxValidity_ok_inputs hkf (hall tx htx)) (rel_heights hrel hheights)
+            hpow hdiff hbelow hspeeds hfits)
+          (fun _ _ => NoCrash.ok _)
+      · exact NoCrash.ok _
+    · intro newSpeed _
+      exact NoCrash.bind (createNextState_noCrash env s txs rel hc hfresh hw) (fun _ _ => NoCrash.ok _)
+
 end Mel
